@@ -248,7 +248,17 @@ class PredEval:
                 else:
                     self._block(st.orelse)
             elif isinstance(st, ast.Assign) and len(st.targets) == 1 and isinstance(st.targets[0], ast.Name) and not self._is_effect(st.value):
-                self._loc[st.targets[0].id] = self._val(st.value)
+                v0 = st.value
+                if isinstance(v0, (ast.Attribute, ast.Subscript)) and self._const(v0) is TOP and self._subject_value(v0) is TOP:
+                    self._loc[st.targets[0].id] = ("expr", v0)  # an alias of an opaque expression: tests on it are tests on the expression
+                else:
+                    self._loc[st.targets[0].id] = self._val(v0)
+            elif isinstance(st, ast.AnnAssign) and isinstance(st.target, ast.Name) and st.value is not None and not self._is_effect(st.value):
+                v0 = st.value
+                if isinstance(v0, (ast.Attribute, ast.Subscript)) and self._const(v0) is TOP and self._subject_value(v0) is TOP:
+                    self._loc[st.target.id] = ("expr", v0)
+                else:
+                    self._loc[st.target.id] = self._val(v0)
             elif isinstance(st, (ast.Assign, ast.AnnAssign, ast.AugAssign)) and getattr(st, "value", None) is not None:
                 # the value is a call/await (an effect with an unknown result), or the target is not a plain local: every target
                 # becomes a fresh opaque value - later tests on it are new atoms, distinct from tests made before this point
